@@ -57,6 +57,44 @@ def slice_pc(pc, goal):
     return [p for p, k in zip(pc, keep) if k]
 
 
+def _has_quant(t, _cache={}):
+    k = t.get_id()
+    if k in _cache:
+        return _cache[k]
+    r = False
+    stack, seen = [t], set()
+    while stack:
+        x = stack.pop()
+        if x.get_id() in seen:
+            continue
+        seen.add(x.get_id())
+        if z3.is_quantifier(x):
+            r = True
+            break
+        if z3.is_app(x):
+            stack.extend(x.children())
+    _cache[k] = r
+    return r
+
+
+def drop_quantified(pc):
+    """Hypotheses without their quantified conjuncts (a weakening: sound for `unsat`, a candidate only for `sat`)."""
+    out, dropped = [], 0
+
+    def add(p):
+        nonlocal dropped
+        if not _has_quant(p):
+            out.append(p)
+        elif z3.is_and(p):
+            for ch in p.children():
+                add(ch)
+        else:
+            dropped += 1
+    for p in pc:
+        add(p)
+    return out, dropped
+
+
 def to_smt2(pc, goal):
     s = z3.Solver()
     for p in pc:
@@ -134,6 +172,18 @@ def solve_all(obls, budget, jobs=None, cross=False):
             rr, dt, _ = _run([Z3_BIN, "-in", "-T:%d" % budget], sv.to_smt2(), budget)
             if rr == "unsat":
                 r = {"result": "unsat", "backend": "z3(premise infeasible on this path)", "seconds": r["seconds"] + dt}
+        if r["result"] not in ("sat", "unsat"):
+            # quantified hypotheses (definitions of reversed/sorted sequences, extensional map equality) make the solvers give up
+            # on satisfiable queries. Without them: unsat is still a proof (fewer hypotheses); sat is only a CANDIDATE refutation
+            # (a model of the remaining hypotheses) which the driver must confirm by replay or report as such.
+            qf, nd = drop_quantified(obls[i].pc)
+            if nd and not _has_quant(obls[i].goal):
+                rr, dt, _ = _run([Z3_BIN, "-in", "-T:%d" % budget], to_smt2(qf, obls[i].goal), budget)
+                if rr == "unsat":
+                    r = {"result": "unsat", "backend": "z3(quantifier-free hypotheses)", "seconds": r["seconds"] + dt}
+                elif rr == "sat":
+                    r = {"result": "sat", "backend": "z3(candidate: %d quantified hypotheses dropped, unknown with them)" % nd,
+                         "seconds": r["seconds"] + dt, "candidate": True, "detail": r.get("detail")}
         if cross and r["result"] in ("sat", "unsat") and CVC5_BIN:
             other = "cvc5" if r["backend"].startswith("z3") else "z3"
             if other == "cvc5":
@@ -159,7 +209,13 @@ def model_for(obl, budget=20):
         s.add(p)
     s.add(z3.Not(obl.goal))
     if s.check() != z3.sat:
-        return None
+        s = z3.Solver()
+        s.set("timeout", budget * 1000)
+        for p in drop_quantified(obl.pc)[0]:
+            s.add(p)
+        s.add(z3.Not(obl.goal))
+        if s.check() != z3.sat:
+            return None
     m = s.model()
     out = {}
     for d in m.decls():
